@@ -211,9 +211,14 @@ def replay(case):
     fn, orig, state = _install_contract(res)
     s, sd = case
     try:
-        fn(s, sd)
+        r = fn(s, sd)
+        print("murmur3_32(%r, %#x) = %#x ; reference (code points mod 256) = %#x" % (s[:60], sd, r, refs.murmur3_mod256(s, sd)))
+        if r != refs.murmur3_mod256(s, sd):
+            res.violation("nonlatin1-value-changed-between-releases", "differs from the pinned release's value", case)
     except Broken:
         res.violation("reference-mismatch(len%%4=%d)" % (len(s) % 4), state["last"], case)
+    except Exception as e:
+        res.violation("raises-" + type(e).__name__, "murmur3_32(%r, %#x) raised %r" % (s[:60], sd, e), case)
     res.case((s, sd))
     res.count("vectors_checked")
     return res
